@@ -155,6 +155,10 @@ pub fn gen_srv_case(rng: &mut Rng, profile: Profile, prop: &'static str) -> SrvC
         fds_from_zero: rng.chance(1, 6),
         kill_first: rng.chance(1, 2),
         from_fd: rng.chance(1, 4),
+        start_twice: rng.chance(1, 8),
+        kill_twice: rng.chance(1, 8),
+        placeholder0: rng.chance(1, 3),
+        skip_start: false,
     };
     let mut st = Stats::default();
     let mut flags = flags_for(prop, profile);
@@ -258,7 +262,14 @@ pub fn gen_srv_case(rng: &mut Rng, profile: Profile, prop: &'static str) -> SrvC
         let w_send = if senders.is_empty() { 0 } else { 25 };
         let w_recv = if readers.is_empty() { 0 } else { 10 };
         let w_resp = if sim.outstanding.is_empty() { 0 } else { 10 };
-        let w_respall = if sim.outstanding.len() >= 2 { 3 } else { 0 };
+        let w_respall = if sim.outstanding.len() >= 2 {
+            3
+        } else if sim.outstanding.is_empty() && i % 16 == 0 {
+            // now and then the application hands over an empty batch
+            1
+        } else {
+            0
+        };
         let w_flush = if flush_enabled { 3 } else { 0 };
         let w_hostile = if hostiles.is_empty() {
             0
@@ -337,7 +348,7 @@ pub fn gen_srv_case(rng: &mut Rng, profile: Profile, prop: &'static str) -> SrvC
                 // a client that asked for 100-continue waits for it before sending the body
                 let waiting = gcs[c].marks.iter().find(|m| m.0 == off && m.2 && m.1 > m.0);
                 if let Some(_m) = waiting {
-                    let got100 = cl.resps.iter().filter(|r| r.code == 100).count();
+                    let got100 = cl.resps.iter().filter(|r| r.code == 100 && r.body.is_empty()).count();
                     let needed = gcs[c].marks.iter().filter(|m| m.2 && m.0 <= off).count();
                     if got100 < needed && !gcs[c].hostile && rng.chance(9, 10) {
                         sim.continue_waits += 1;
@@ -385,7 +396,7 @@ pub fn gen_srv_case(rng: &mut Rng, profile: Profile, prop: &'static str) -> SrvC
                 };
                 let tag = sim.outstanding[k].0.clone();
                 let pad = if big_responses && rng.chance(1, 3) { rng.range(200, 3 * case.cap_s2c.min(70_000)) } else { rng.below(80) };
-                SStep::Respond { tag, code: *rng.pick(&[200u16, 200, 200, 404, 400, 500, 204]), pad }
+                SStep::Respond { tag, code: *rng.pick(&[200u16, 200, 200, 404, 400, 500, 204, 100]), pad }
             }
             5 => SStep::RespondAll { code: 200, pad: rng.below(60) },
             6 => SStep::Flush,
@@ -641,6 +652,21 @@ fn shrink_srv(case: &SrvCase) -> Vec<SrvCase> {
     if case.from_fd {
         let mut c = case.clone();
         c.from_fd = false;
+        out.push(c);
+    }
+    if case.start_twice {
+        let mut c = case.clone();
+        c.start_twice = false;
+        out.push(c);
+    }
+    if case.kill_twice {
+        let mut c = case.clone();
+        c.kill_twice = false;
+        out.push(c);
+    }
+    if case.placeholder0 {
+        let mut c = case.clone();
+        c.placeholder0 = false;
         out.push(c);
     }
     out
@@ -955,6 +981,10 @@ fn full_house(rng: &mut Rng) -> SrvCase {
         fds_from_zero: rng.chance(1, 6),
         kill_first: rng.chance(1, 2),
         from_fd: rng.chance(1, 4),
+        start_twice: rng.chance(1, 8),
+        kill_twice: rng.chance(1, 8),
+        placeholder0: rng.chance(1, 3),
+        skip_start: false,
     };
     let n = *rng.pick(&[10usize, 10, 10, 9, 8]);
     for c in 0..n {
@@ -1014,6 +1044,16 @@ impl Prop for C18 {
     fn gen(&self, rng: &mut Rng, _tier: Tier, index: u64) -> J {
         if rng.chance(1, 6) {
             return full_house(rng).to_json();
+        }
+        if rng.chance(1, 60) {
+            // a server that was set up but never started: the kill switch must work all the same
+            let mut case = full_house(rng);
+            case.scripts.clear();
+            case.steps.clear();
+            case.skip_start = true;
+            case.kill_after_start = false;
+            case.kill_at = Some(0);
+            return case.to_json();
         }
         let profile = *rng.pick(&[Profile::WellBehaved, Profile::Hostile, Profile::Capacity, Profile::Routing]);
         let mut case = gen_srv_case(rng, profile, "C18");
